@@ -587,6 +587,169 @@ def run_docx(ctx):
                    (f"{len(failing)} disagreements, first: {info[failing[0]]!r} " if failing else "") + log[:800])
 
 
+# ----------------------------------------------------------------------------- (b) DOC / ODT heading sections
+def _stack_paths(heads):
+    """heads: list of (index, level, text) in order -> nothing; helper kept for symmetry."""
+    return heads
+
+
+def run_doc(ctx):
+    from sharepoint2text.parsing.extractors import data_types as dt
+    rng = ctx.rng
+    vocab_head = ["Chapter 1", "chapter two", "CHAPTER", "Subsection A", "subsection", "intro", " Intro ", "Chapter 1",
+                  "INTRO", "Subsection B"]
+    vocab_body = ["body {k}", "  body {k}  ", "", "  ", "introduction {k}", "a b c", "a  b\tc", "x", "The chapter {k}",
+                  "ſubsection {k}", "Intro {k}"]
+    seps = ["\n", "\n", "\n", "\r\n", "\x0b", " ", "\x0c"]
+    cases, info, split_cases = [], [], []
+    for i in range(ctx.n(700, 7000)):
+        n = rng.choice([0, 1, 2, 3, 4, 5, 6, 8])
+        shape = rng.choice(["free", "free", "headings-only", "clean", "nohead"])
+        raw = []
+        for k in range(n):
+            if shape == "headings-only" or (shape != "nohead" and rng.random() < 0.35) or (shape == "clean" and k == 0):
+                raw.append(rng.choice(vocab_head))
+            else:
+                raw.append(rng.choice(vocab_body if shape != "clean" else vocab_body[:2] + vocab_body[4:]).format(k=k))
+            if shape == "clean" and raw[-1] in vocab_head:
+                raw.append(f"payload {k}")
+        main_text = "".join(l + rng.choice(seps) for l in raw)
+        if rng.random() < 0.3:
+            main_text = main_text.rstrip()
+        tables = rng.choice([[], [], [[["a", "b"], ["c"]]], [[["x"]], [["a", "b", "c"]]], [[["a", None, "c"]]], [[["a b", "c"]]]])
+        nimg = rng.choice([0, 0, 1, 2])
+        imgs = [dt.DocImage(image_number=j + 1, content_type="image/png", caption=rng.choice(["", "body 1", "zzz"]))
+                for j in range(nimg)]
+        title = rng.choice(["", "", "Doc title"])
+        obj = dt.DocContent(main_text=main_text, tables=tables, images=imgs, metadata=dt.DocMetadata(title=title))
+        lines = [l.rstrip() for l in (main_text or "").splitlines()]
+        rp = {"main_text": main_text, "tables": tables, "images": nimg, "title": title}
+        try:
+            us = list(obj.iterate_units())
+        except IndexError as e:
+            ctx.case(("doc", main_text, nimg), True, kind="doc:raises")
+            ctx.finding("doc:headings-without-units-image-indexerror",
+                        "DocContent.iterate_units raises IndexError (units[-1] on an empty list) when the text has headings "
+                        "but no unit was produced and an image is present", dict(rp, error=repr(e)))
+            continue
+        got = [(u.unit_number, u.text, list(u.heading_path), u.heading_level) for u in us]
+        flat = lambda tb: [c if isinstance(c, str) else " " for row in tb for c in row]
+        term = ("(mkDoc " + coq_list([f"(mkDocLine {coq_str(l)} {coq_str(l.strip().lower())})" for l in lines]) + " "
+                + coq_str(main_text) + " " + coq_list([cstrs(flat(tb)) for tb in tables]) + f" {nimg} " + coq_str(title) + ")")
+        cases.append(pair(term, coq_list([pair(coq_Z(a), coq_str(b), cstrs(c), coq_opt(d, coq_Z)) for a, b, c, d in got])))
+        info.append(rp)
+        for l in lines[:3]:
+            split_cases.append(pair(coq_str(l), cstrs(l.split())))
+        # ---- property oracle
+        nums = [g[0] for g in got]
+        if nums != list(range(1, len(nums) + 1)):
+            ctx.finding("doc:unit-numbers-not-1..n", f"DocContent unit numbers {nums}", dict(rp, units=got))
+        # which lines are headings / table lines (consume order as in the code)
+        ti, kinds = 0, []
+        for l in lines:
+            toks = l.split()
+            if ti < len(tables) and toks and toks == [c for row in tables[ti] for c in row]:
+                ti += 1; kinds.append("table"); continue
+            low = l.strip().lower()
+            kinds.append("head" if l.strip() and (low.startswith("subsection") or low.startswith("chapter") or low == "intro")
+                         else "body")
+        heading_mode = "head" in kinds
+        ctx.case(("doc", term), heading_mode or len(got) >= 2, kind=f"doc:{shape}")
+        if not heading_mode:
+            continue
+        cov_lines = [x for g in got for x in g[1].split("\n")]
+        cov_paths = [x for g in got for x in g[2]]
+        for l, kd in zip(lines, kinds):
+            tx = l.strip()
+            if not tx or kd == "table":
+                continue
+            if kd == "head" and tx not in cov_paths:
+                ctx.finding("doc:heading-without-body-in-no-unit", f"DOC heading {tx!r} without body text is in no unit "
+                            "(no unit is emitted for an empty section and nothing below it carries the heading)",
+                            dict(rp, units=got, heading=tx))
+            if kd == "body" and tx not in cov_lines:
+                ctx.finding("doc:body-line-in-no-unit", f"DOC body line {tx!r} is in no unit", dict(rp, units=got, line=tx))
+    pre = ("From Coq Require Import ZArith List.\nFrom S2T Require Import Lib.PyStr C03.Lib C03.Docx C03.Sect C03.Corr.\n"
+           "Import ListNotations.\n")
+    ok, failing, log = coq_eval_shards(ctx, "doc", pre, "doc_case", cases, shard=300, ty="doc * list obs")
+    ctx.traces += len(cases)
+    ctx.obligation("correspondence:DocContent.iterate_units model==implementation", ok and not failing,
+                   (f"{len(failing)} disagreements, first: {info[failing[0]]!r} " if failing else "") + log[:800])
+    ok, failing, log = coq_eval_shards(ctx, "split", pre, "split_case", split_cases[:ctx.n(600, 5000)], shard=600, ty="str * list str")
+    ctx.obligation("correspondence:str.split() model==CPython", ok and not failing, (f"{len(failing)} disagreements " + log)[:600])
+
+
+def run_odt(ctx):
+    from sharepoint2text.parsing.extractors import data_types as dt
+    rng = ctx.rng
+    styles = [None, "Standard", "P1", "Table_20_Contents", "Table Heading", "My_Table_x", "Text_20_body", "Tables"]
+    cases, info = [], []
+    for i in range(ctx.n(700, 7000)):
+        n = rng.choice([0, 1, 2, 3, 4, 5, 6, 8])
+        shape = rng.choice(["free", "free", "headings-only", "clean", "nohead"])
+        paras, kinds = [], []
+        for k in range(n):
+            lvl = None
+            if shape == "headings-only" or (shape != "nohead" and rng.random() < 0.35) or (shape == "clean" and k == 0):
+                lvl = rng.choice([1, 1, 2, 3])
+            st = rng.choice(styles[:3] if shape == "clean" else styles)
+            if lvl is not None:
+                tx = rng.choice([f"H{k}x", f" H{k}x ", "Same", "" if shape != "clean" else f"H{k}x", "Doc title"])
+            else:
+                tx = rng.choice([f"P{k}x", f"  P{k}x \n", "", " ", f"P{k}x"])
+            paras.append(dt.OdtParagraph(text=tx, style_name=st, outline_level=lvl))
+            if shape == "clean" and lvl is not None:
+                paras.append(dt.OdtParagraph(text=f"payload {k}", style_name="Standard"))
+        ntab = rng.choice([0, 0, 1, 2, 3])
+        tables = [dt.OdtTable(data=[["h1", "h2"], ["1", "2"]]) for _ in range(ntab)]
+        imgs = [dt.OpenDocumentImage(caption=rng.choice(["", "P1x"]), image_index=j + 1) for j in range(rng.choice([0, 0, 1]))]
+        title = rng.choice(["", "", "Doc title"])
+        ft = "FULL " + rtext(rng, None, 3)
+        obj = dt.OdtContent(paragraphs=paras, tables=tables, images=imgs, full_text=ft,
+                            metadata=dt.OpenDocumentMetadata(title=title))
+        rp = {"paragraphs": [(p.text, p.style_name, p.outline_level) for p in paras], "tables": ntab, "title": title}
+        try:
+            us = list(obj.iterate_units())
+        except Exception as e:  # noqa
+            ctx.finding("odt:iterate_units-raises", f"OdtContent.iterate_units raised {type(e).__name__}", dict(rp, error=repr(e)))
+            continue
+        got = [(u.unit_number, u.text, list(u.heading_path), u.heading_level) for u in us]
+        term = ("(mkOdt " + coq_list([f"(mkOdtPara {coq_str(p.text)} {coq_str(p.style_name or '')} {coq_opt(p.outline_level, coq_Z)})"
+                                      for p in paras]) + f" {ntab} " + coq_str(ft) + " " + coq_str(title) + ")")
+        cases.append(pair(term, coq_list([pair(coq_Z(a), coq_str(b), cstrs(c), coq_opt(d, coq_Z)) for a, b, c, d in got])))
+        info.append(rp)
+        nums = [g[0] for g in got]
+        if nums != list(range(1, len(nums) + 1)):
+            ctx.finding("odt:unit-numbers-not-1..n", f"OdtContent unit numbers {nums}", dict(rp, units=got))
+        heading_mode = any(p.outline_level is not None and p.text.strip() for p in paras)
+        ctx.case(("odt", term), heading_mode or len(got) >= 2, kind=f"odt:{shape}")
+        if not heading_mode:
+            continue
+        cov_lines = [x for g in got for x in g[1].split("\n")]
+        cov_paths = [x for g in got for x in g[2]]
+        for p in paras:
+            tx = p.text.strip()
+            if not tx:
+                continue
+            if p.outline_level is not None:
+                if tx not in cov_paths:
+                    ctx.finding("odt:heading-without-body-in-no-unit", f"ODT heading {tx!r} without body text is in no unit "
+                                "(no unit is emitted for an empty section and nothing below it carries the heading)",
+                                dict(rp, units=got, heading=tx))
+                continue
+            st = p.style_name or ""
+            if st.startswith("Table") or "Table_" in st:
+                continue  # table cell paragraphs: table content
+            if tx not in cov_lines:
+                ctx.finding("odt:body-paragraph-in-no-unit", f"ODT body paragraph {tx!r} is in no unit", dict(rp, units=got))
+    pre = ("From Coq Require Import ZArith List.\nFrom S2T Require Import Lib.PyStr C03.Lib C03.Docx C03.Sect C03.Corr.\n"
+           "Import ListNotations.\n")
+    ok, failing, log = coq_eval_shards(ctx, "odt", pre, "odt_case", cases, shard=300, ty="odt * list obs")
+    ctx.traces += len(cases)
+    ctx.obligation("correspondence:OdtContent.iterate_units model==implementation", ok and not failing,
+                   (f"{len(failing)} disagreements, first: {info[failing[0]]!r} " if failing else "") + log[:800])
+
+
 # ----------------------------------------------------------------------------- tiny document writers (harness only)
 def make_pdf(pages):
     """pages: list of None (no content stream text) | str (text shown with Tj; may be whitespace)."""
@@ -857,6 +1020,8 @@ def run(ctx):
     run_rtf(ctx)
     run_mbox(ctx)
     run_docx(ctx)
+    run_doc(ctx)
+    run_odt(ctx)
     run_end_to_end(ctx)
 
 
